@@ -13,7 +13,7 @@ import os
 
 from vlib.common import Check, rng, run_case, pmap, workdir, cleanup, short
 
-PROBE_S = 6.0
+PROBE_S = 12.0
 
 
 def case(spec, log):
